@@ -134,24 +134,6 @@ func (b *Built) Close() {
 	}
 }
 
-func banOptions(names []string) ([]core.Option, error) {
-	if len(names) == 0 {
-		return nil, nil
-	}
-	var ee []directive.Enumeration
-	for _, n := range names {
-		e, err := directive.NewDirectiveType(n)
-		if err != nil {
-			return nil, fmt.Errorf("unknown directive %q", n)
-		}
-		if n == "HTTP-response-code" {
-			e = directive.HTTPResponseCode
-		}
-		ee = append(ee, e)
-	}
-	return []core.Option{core.WithBannedDirectives(ee...)}, nil
-}
-
 // BanEnum resolves a directive name (as in Enumeration.String()) to its enumeration value.
 func BanEnum(name string) (directive.Enumeration, bool) {
 	for i := 0; i <= int(directive.OperationID); i++ {
@@ -288,4 +270,58 @@ func Safely(f func()) (sig, text, stack string) {
 	}()
 	f()
 	return "", "", ""
+}
+
+// BuildCore builds through core.NewJApiCore directly (needed for the verif-tag accessors).  The caller must call done().
+func BuildCore(p *Project) (c *core.JApiCore, out *Outcome, dir string, done func()) {
+	done = func() {}
+	var rootPath string
+	if p.NeedsDisk() {
+		dir = filepath.Join(WorkDir(), fmt.Sprintf("p%d", buildSeq.Add(1)))
+		rp, err := p.Materialize(dir)
+		if err != nil {
+			panic("harness: cannot materialise project: " + err.Error())
+		}
+		rootPath = rp
+		d := dir
+		done = func() { _ = os.RemoveAll(d) }
+	} else {
+		dir = filepath.Dir(PlayRoot())
+		rootPath = filepath.Join(dir, filepath.Base(p.Root))
+	}
+	var opts []core.Option
+	if len(p.Banned) > 0 {
+		var ee []directive.Enumeration
+		for _, n := range p.Banned {
+			e, ok := BanEnum(n)
+			if !ok {
+				panic("harness: unknown directive name " + n)
+			}
+			ee = append(ee, e)
+		}
+		opts = append(opts, core.WithBannedDirectives(ee...))
+	}
+	out = &Outcome{}
+	sig, text, st := Safely(func() {
+		c = core.NewJApiCore(fs.NewFile(rootPath, p.RootBytes()), opts...)
+		je := c.BuildCatalog()
+		if je != nil {
+			out = OutcomeOf(kit.JApi{}, je, dir)
+		} else {
+			out = &Outcome{Kind: "ok"}
+		}
+	})
+	if sig != "" {
+		out = &Outcome{Kind: "panic", Panic: text, Sig: sig, Stack: st}
+	}
+	return
+}
+
+// LineOf returns the 1-based line of a byte index (LF / CRLF / CR aware through RefLocation; 0 for mixed endings).
+func LineOf(content []byte, idx int) int {
+	l, _, _, ok := RefLocation(content, idx)
+	if !ok {
+		return 0
+	}
+	return l
 }
